@@ -69,9 +69,15 @@ def cases_for_forms(name, forms, options=None):
         by_ir.setdefault(id(k.ir), []).append(k)
     integral_irs = list(ir.integrals)
     assert len(integral_irs) == len(itgs), (len(integral_irs), len(itgs))
+    fd_index = {id(fd): i for i, fd in enumerate(analysis.form_data)}
     for iir, (fd, itg) in zip(integral_irs, itgs):
         for k in by_ir.get(id(iir), []):
-            out.append(_integral_case(f"{name}:{k.name}", k, fd, itg, options))
+            cs = _integral_case(f"{name}:{k.name}", k, fd, itg, options)
+            cs.extra["form_index"] = fd_index[id(fd)]
+            cs.extra["itg_index"] = list(fd.integral_data).index(itg)
+            cs.extra["subdomain_ids"] = [(-1 if sid == "otherwise" else int(sid)) for sid in itg.subdomain_id]
+            cs.extra["domain_tag"] = int(k.domain)
+            out.append(cs)
     return out, analysis, ir
 
 
@@ -139,7 +145,7 @@ def cases_for_expressions(name, exprs, options=None):
     analysis, ir = pipeline.compute(exprs, options)
     ks = pipeline.kernels(ir, options)
     out = []
-    for k, (e, pts) in zip(ks, exprs):
+    for ei, (k, (e, pts)) in enumerate(zip(ks, exprs)):
         pts = np.asarray(pts)
         args = sorted(ufl.algorithms.extract_arguments(e), key=lambda a: a.number())
         adims = [_el_dim(a.ufl_function_space().ufl_element()) for a in args]
@@ -180,6 +186,7 @@ def cases_for_expressions(name, exprs, options=None):
             name=f"{name}:{k.name}", kind="expression", integral_type=itype, cell=cellname, ast=k.ast,
             ast_sexp=export.stmt(k.ast), sizes=sizes, n_entities=nent, n_perms=nperm,
             scalar_type=str(options["scalar_type"]), ir=k.ir, coef_blocks=cblocks, const_blocks=kblocks,
+            extra={"expr_index": ei},
         ))
     return out, analysis, ir
 
@@ -278,3 +285,22 @@ def lean_exec(driver, case, inp, mode="rat"):
     if mode == "rat":
         return "ok", [Fraction(v) for v in vals]
     return "ok", np.array([struct.unpack("<d", struct.pack("<Q", int(v)))[0] for v in vals])
+
+
+_UFCX_TYPES = ("cell", "exterior_facet", "interior_facet", "vertex", "ridge")
+
+
+def compiled_kernel(comp, case):
+    """The compiled kernel object for a case, found the way an assembler finds it: through the form
+    descriptor (type group, subdomain id, cell-type tag).  Expressions: the compiled expression."""
+    if case.kind == "expression":
+        return comp[case.extra["expr_index"]]
+    form = comp[case.extra["form_index"]]
+    t = _UFCX_TYPES.index(case.integral_type)
+    lo, hi = form.form_integral_offsets[t], form.form_integral_offsets[t + 1]
+    sid = case.extra["subdomain_ids"][0]
+    dom = case.extra["domain_tag"]
+    cands = [i for i in range(lo, hi) if form.form_integral_ids[i] == sid and int(form.form_integrals[i].domain) == dom]
+    if len(cands) != 1:
+        raise LookupError(f"{case.name}: {len(cands)} kernels listed under type={case.integral_type} id={sid} domain={dom}")
+    return form.form_integrals[cands[0]]
